@@ -344,8 +344,27 @@ type c18B struct {
 	As []c18A `json:"as"`
 }
 
+// recursion through a plain slice of the type itself, reached through that same slice type
+type c18Plain struct {
+	Name string     `json:"name"`
+	Kids []c18Plain `json:"kids"`
+}
+type c18Forest struct {
+	Roots []c18Plain          `json:"roots"`
+	ByKey map[string]c18Plain `json:"byKey"`
+}
+
 func c18Fixed(name string) (any, []any) {
 	switch name {
+	case "recursive-slice-root":
+		leaf := c18Plain{Name: "leaf", Kids: []c18Plain{}}
+		return []c18Plain{}, []any{[]c18Plain{{Name: "a", Kids: []c18Plain{leaf, leaf}}, leaf}, []c18Plain{}}
+	case "recursive-slice-field":
+		leaf := c18Plain{Name: "leaf", Kids: []c18Plain{}}
+		return c18Forest{}, []any{c18Forest{Roots: []c18Plain{{Name: "a", Kids: []c18Plain{leaf}}, leaf}, ByKey: map[string]c18Plain{"k": leaf}}, c18Forest{Roots: []c18Plain{}, ByKey: map[string]c18Plain{}}}
+	case "recursive-plain":
+		leaf := c18Plain{Name: "leaf", Kids: []c18Plain{}}
+		return c18Plain{}, []any{c18Plain{Name: "a", Kids: []c18Plain{leaf}}, leaf}
 	case "recursive-ptrptr":
 		leaf := &c18PP{Name: "leaf"}
 		mid := &c18PP{Name: "mid", Next: &leaf}
@@ -372,7 +391,7 @@ func c18Fixed(name string) (any, []any) {
 	return nil, nil
 }
 
-var c18FixedNames = []string{"recursive-ptrptr", "recursive-containers", "recursive-mutual", "recursive", "embedded", "embedded-pointer", "string-option", "shadowed"}
+var c18FixedNames = []string{"recursive-slice-root", "recursive-slice-field", "recursive-plain", "recursive-ptrptr", "recursive-containers", "recursive-mutual", "recursive", "embedded", "embedded-pointer", "string-option", "shadowed"}
 
 func runC18(c *C18Case) (C18Obs, string) {
 	var o C18Obs
